@@ -361,17 +361,49 @@ def reg_view(nodes: dict):
                              for ck, cv in v["children"].items()}} for k, v in nodes.items()}
 
 
+def _spec_compare(hists, impl, corr: Corr) -> None:
+    """The implementation's registry and active protocol after every operation against the abstract
+    specification (`Model/RegistrySpec.lean`, driver command `srecv`): the specification sees the received lines
+    only — no faults, no sends, no buffers.  (Lean theorem `history_refines_spec` ties the handler model to it.)"""
+    lines, counts = [], []
+    for h in hists:
+        setup = gw.model_lines(h)[: 1 + len(h.preload)]
+        recvs = [f"srecv {lib.enc(op[1])}" for op in h.ops if op[0] == "recv"]
+        lines += setup + ["sdump"] + recvs
+        counts.append((len(setup), len(recvs)))
+    outs = lib.run_model(lines)
+    pos = 0
+    for h, io, (ns, nr) in zip(hists, impl, counts):
+        if any(o != "ok" for o in outs[pos:pos + ns]):
+            raise lib.ModelError("model rejected a setup operation")
+        spec = outs[pos + ns: pos + ns + 1 + nr]
+        pos += ns + 1 + nr
+        k = 0
+        for i, o in enumerate(io):
+            if i and h.ops[i - 1][0] == "recv":
+                k += 1
+            st = split_state(o["state"])
+            got = f"{st['proto']} nodes=[{st['nodes']}]"
+            if got != spec[k]:
+                corr.disagree("registry specification", {"history": Hist(h.version, h.metric, h.preload, h.ops[:i]).to_json(),
+                                                         "step": i, "impl": got, "spec": spec[k]})
+                break
+
+
 def run_c04(ctx) -> Corr:
     corr = Corr("C04", "histories of received lines over 3 nodes x 3 children x 3 value types with interleaved (re)presentations, "
                 "sets, reqs, battery/sketch/heartbeat reports, id requests, malformed and unsupported lines, write faults, "
                 "empty and preloaded registries x 5 versions; compared on the registry view (outcome incl. the id an error names, "
-                "yielded fields, node attributes, children, values) with the Lean model; oracle = the registry the property "
+                "yielded fields, node attributes, children, values) with the Lean model, and registry + active protocol after every "
+                "operation with the abstract registry specification fed the received lines only; oracle = the registry the property "
                 "describes, maintained independently. non-trivial = distinct (state, line) that changes the registry or fails "
                 "with a missing-node/child error")
     hists = [h for _, h in corpus_histories("C04")] + histories(ctx, "c04h", 300, 5000, send_ratio=0.05, fault_ratio=0.05)
     if ctx.tier == "thorough":
         hists += _exhaustive_histories(3)
     impl = run_both(hists, corr, ctx, "registry", "registry view")
+    if ctx.model_ok:
+        _spec_compare(hists, impl, corr)
     for h, io in zip(hists, impl):
         ref = reg_view(io[0]["nodes"])
         for i, op in enumerate(h.ops):
